@@ -16,6 +16,8 @@ def InBox (sz : String → Nat) (dims : List String) (env : Env) : Prop := ∀ d
 /-- the well-formedness of one variable: its data fill exactly its shape -/
 def Var.WF (sz : String → Nat) (v : Var) : Prop := v.data.length = size (v.dims.map sz)
 
+instance (sz : String → Nat) (v : Var) : Decidable (v.WF sz) := by unfold Var.WF; infer_instance
+
 theorem inRange_map (sz : String → Nat) (env : Env) :
     ∀ dims : List String, InBox sz dims env → InRange (dims.map sz) (dims.map env)
   | [], _ => trivial
